@@ -133,89 +133,42 @@ bucket_harness!(c12_kbucket_add_on_full_bucket_of_20, 20, |added, known, stale| 
 });
 
 // =============================================================================================
-// RoutingTable::{add, remove, reset_id}: one call on an arbitrary well-formed table of <= 2 nodes
+// RoutingTable::{add, remove, reset_id, size, is_empty, nodes}
+//
+// Modular shape: RoutingTable::add is verified against the CONTRACT of KBucket::add (recording
+// stub: which bucket, which node, an arbitrary verdict) — KBucket::add's own contract is discharged
+// above, Node::already_exists' in common::node::verif_kani. reset_id is verified against a
+// recording stub of RoutingTable::add. That these per-call contracts preserve the representation
+// invariant of the statement for tables of ANY size and after ANY sequence of operations is the
+// Verus lemma verus/c12_invariant.rs.
 // =============================================================================================
 
-/// the representation invariant of the statement
-fn wf(t: &RoutingTable) -> bool {
-    let mut ok = true;
-    let mut count = 0usize;
-    for (d, bucket) in t.buckets.iter() {
-        ok = ok && bucket.nodes.len() <= MAX_BUCKET_SIZE_K;
-        for n in bucket.nodes.iter() {
-            count += 1;
-            // no own id, and every entry sits in the bucket matching its distance
-            ok = ok && n.id() != t.id() && t.id().distance(n.id()) == *d;
-            // ids pairwise distinct, per-IP limits (against every other entry of the table)
-            let mut same_id = 0usize;
-            for (_, b2) in t.buckets.iter() {
-                for m in b2.nodes.iter() {
-                    if m.id() == n.id() {
-                        same_id += 1;
-                    } else if m.address().ip() == n.address().ip() {
-                        // two different entries on one IP: not both insecure; if both secure, different 21-bit prefixes
-                        ok = ok && (m.is_secure() || n.is_secure());
-                        ok = ok && !(m.is_secure() && n.is_secure() && m.id().first_21_bits() == n.id().first_21_bits());
-                    }
-                }
-            }
-            ok = ok && same_id == 1;
-        }
+static mut BADD_CALLS: u32 = 0;
+static mut BADD_BUCKET: usize = 0;
+static mut BADD_NODE: usize = 0;
+static mut BADD_VERDICT: bool = true;
+
+fn stub_bucket_add(b: &mut KBucket, incoming: Node) -> bool {
+    unsafe {
+        BADD_CALLS += 1;
+        BADD_BUCKET = b as *mut KBucket as usize;
+        BADD_NODE = Arc::as_ptr(&incoming.0) as usize;
+        core::mem::forget(incoming);
+        BADD_VERDICT
     }
-    // size, iteration and is_empty agree
-    ok = ok && t.size() == count && t.is_empty() == (count == 0);
-    let mut it = 0usize;
-    for _ in t.nodes() {
-        it += 1;
-    }
-    ok && it == count
 }
 
-fn contains(t: &RoutingTable, id: &Id) -> bool {
-    let mut found = false;
-    for (_, b) in t.buckets.iter() {
-        for n in b.nodes.iter() {
-            found = found || n.id() == id;
-        }
-    }
-    found
+fn place(t: &mut RoutingTable, n: Node) {
+    let d = t.id.distance(n.id());
+    t.buckets.entry(d).or_default().nodes.push(n);
 }
 
-struct Sym {
-    b0: u8,
-    b1: u8,
-    b19: u8,
-    ip3: u8,
-}
-fn sym() -> Sym {
-    let s = Sym { b0: kani::any(), b1: kani::any(), b19: kani::any(), ip3: kani::any() };
-    // keep the universe small but rich: two first bytes, two second bytes, two IPs, both parities
-    kani::assume((s.b0 == 0x80 || s.b0 == 0x40) && s.b1 < 2 && s.b19 < 2 && s.ip3 < 2);
-    s
-}
-fn node_of(s: &Sym, age: u64) -> Node {
-    node_aged(idb(s.b0, s.b1, s.b19), addr(s.ip3, 7000), age)
-}
-
-/// a table with id 00.. holding 0..=2 arbitrary nodes placed in their buckets; assumed well formed
-fn small_table() -> (RoutingTable, usize) {
+/// table 00.. with A (insecure, 10.0.0.2, bucket 160) and B (secure, 10.0.0.5, bucket 159)
+fn table_ab() -> RoutingTable {
     let mut t = RoutingTable::new(idb(0, 0, 0));
-    let n: usize = kani::any();
-    kani::assume(n <= 2);
-    if n >= 1 {
-        let s = sym();
-        let node = node_of(&s, 1_000);
-        let d = t.id.distance(node.id());
-        t.buckets.entry(d).or_default().nodes.push(node);
-    }
-    if n >= 2 {
-        let s = sym();
-        let node = node_of(&s, 1_000);
-        let d = t.id.distance(node.id());
-        t.buckets.entry(d).or_default().nodes.push(node);
-    }
-    kani::assume(wf(&t));
-    (t, n)
+    place(&mut t, node_aged(idb(0x80, 1, 0), addr(2, 7000), 1_000));
+    place(&mut t, node_aged(idb(0x40, 1, 0), addr(5, 7000), 1_000));
+    t
 }
 
 #[kani::proof]
@@ -223,30 +176,147 @@ fn small_table() -> (RoutingTable, usize) {
 #[kani::stub(std::time::Instant::now, clock::mock_now)]
 #[kani::stub(std::time::Instant::elapsed, clock::mock_elapsed)]
 #[kani::stub(Id::is_valid_for_ip, stub_is_valid_for_ip)]
-fn c12_table_add_preserves_the_invariant() {
-    let (mut t, n) = small_table();
-    let s = sym();
-    let own: bool = kani::any();
-    let node = if own { node_aged(*t.id(), addr(s.ip3, 7000), 0) } else { node_of(&s, 0) };
-    let id = *node.id();
-    let was_there = contains(&t, &id);
-    let added = t.add(node.clone());
-    assert!(wf(&t), "C12: add preserves the routing-table invariant");
-    assert!(!own || !added, "C12: the table never contains its own id");
-    if added {
-        assert!(contains(&t, &id));
-        assert!(t.size() == n + if was_there { 0 } else { 1 });
+#[kani::stub(KBucket::add, stub_bucket_add)]
+fn c12_table_add_guards_then_delegates_to_the_bucket_at_its_distance() {
+    let mut t = table_ab();
+    let b0: u8 = kani::any();
+    let b1: u8 = kani::any();
+    let b19: u8 = kani::any();
+    let ip3: u8 = kani::any();
+    kani::assume(b0 == 0 || b0 == 0x80 || b0 == 0x40 || b0 == 0x20);
+    kani::assume(b1 < 2 && b19 < 2);
+    let verdict: bool = kani::any();
+    unsafe { BADD_VERDICT = verdict };
+    let id = idb(b0, b1, b19);
+    let node = node_aged(id, addr(ip3, 1), 0);
+    let ptr = Arc::as_ptr(&node.0) as usize;
+    let own = b0 == 0 && b1 == 0 && b19 == 0;
+    let secure = (b19 ^ ip3) & 1 == 1;
+    let _ = secure;
+    // clash with A (10.0.0.2, insecure): any OTHER id on that IP; with B (10.0.0.5, secure): another id
+    // on that IP sharing B's 21-bit prefix (0x40, 1, 0x55 & 0xf8)
+    let is_a = b0 == 0x80 && b1 == 1 && b19 == 0;
+    let is_b = b0 == 0x40 && b1 == 1 && b19 == 0;
+    let clash = (ip3 == 2 && !is_a) || (ip3 == 5 && !is_b && b0 == 0x40 && b1 == 1);
+    let d = t.id.distance(&id);
+    let r = t.add(node);
+    let calls = unsafe { BADD_CALLS };
+    if own {
+        assert!(!r && calls == 0, "C12: the table never admits its own id");
+    } else if clash {
+        assert!(!r && calls == 0, "C12: per-IP limits: an insecure node or a secure node with the same 21-bit prefix on that IP blocks the newcomer");
     } else {
-        assert!(t.size() == n, "a refused add changes nothing");
+        assert!(calls == 1 && r == verdict, "C12: otherwise the decision is the bucket's");
+        assert!(unsafe { BADD_NODE } == ptr, "the node handed to the bucket is the incoming one");
+        match t.buckets.get(&d) {
+            Some(b) => assert!(b as *const KBucket as usize == unsafe { BADD_BUCKET }, "C12: every entry goes to the bucket matching its distance to the table's id"),
+            None => assert!(false, "bucket for the node's distance missing"),
+        }
     }
-    kani::cover!(added && was_there, "known node refreshed through the table");
-    kani::cover!(added && !was_there && n == 2);
-    kani::cover!(!added && !own && !was_there, "refused by the per-IP rule");
-    kani::cover!(!added && was_there);
+    if calls == 0 {
+        assert!(t.size() == 2, "a refused add changes nothing");
+    }
+    kani::cover!(own);
+    kani::cover!(clash && ip3 == 5);
+    kani::cover!(clash && ip3 == 2);
+    kani::cover!(!own && !clash && is_a, "a known node reaches its bucket's refresh rule");
+    kani::cover!(!own && !clash && ip3 == 5, "a secure-prefix-distinct node on B's IP is admitted");
     core::mem::forget(t);
 }
 
-/// C14 kernel: re-adding a known node from the same address refreshes its last_seen
+#[kani::proof]
+#[kani::unwind(23)]
+#[kani::stub(std::time::Instant::now, clock::mock_now)]
+#[kani::stub(std::time::Instant::elapsed, clock::mock_elapsed)]
+fn c12_table_remove_removes_exactly_that_id() {
+    let mut t = table_ab();
+    place(&mut t, node_aged(idb(0x80, 0, 1), addr(9, 7000), 1_000)); // C, same bucket as A
+    let b0: u8 = kani::any();
+    let b1: u8 = kani::any();
+    let b19: u8 = kani::any();
+    kani::assume((b0 == 0 || b0 == 0x80 || b0 == 0x40 || b0 == 0x20) && b1 < 2 && b19 < 2);
+    let id = idb(b0, b1, b19);
+    let is_a = b0 == 0x80 && b1 == 1 && b19 == 0;
+    let is_b = b0 == 0x40 && b1 == 1 && b19 == 0;
+    let is_c = b0 == 0x80 && b1 == 0 && b19 == 1;
+    t.remove(&id);
+    let has = |t: &RoutingTable, d: u8, id: Id| match t.buckets.get(&d) { Some(b) => b.nodes.iter().any(|n| n.id() == &id), None => false };
+    assert!(has(&t, 160, idb(0x80, 1, 0)) == !is_a, "C12: remove removes the id and nothing else");
+    assert!(has(&t, 159, idb(0x40, 1, 0)) == !is_b);
+    assert!(has(&t, 160, idb(0x80, 0, 1)) == !is_c);
+    assert!(t.size() == 3 - if is_a || is_b || is_c { 1 } else { 0 }, "size agrees");
+    kani::cover!(is_a);
+    kani::cover!(is_b);
+    kani::cover!(!is_a && !is_b && !is_c);
+    core::mem::forget(t);
+}
+
+static mut TADD_CALLS: u32 = 0;
+static mut TADD_IDS: [u8; 4] = [0; 4];
+static mut TADD_BUCKETS_EMPTY_AT_FIRST: bool = false;
+static mut TADD_TABLE_ID0: u8 = 0xFF;
+fn stub_table_add(t: &mut RoutingTable, node: Node) -> bool {
+    unsafe {
+        if TADD_CALLS == 0 {
+            TADD_BUCKETS_EMPTY_AT_FIRST = t.buckets.is_empty();
+            TADD_TABLE_ID0 = t.id.as_bytes()[0];
+        }
+        if TADD_CALLS < 4 {
+            TADD_IDS[TADD_CALLS as usize] = node.id().as_bytes()[0];
+        }
+        TADD_CALLS += 1;
+        core::mem::forget(node);
+        true
+    }
+}
+
+#[kani::proof]
+#[kani::unwind(163)]
+#[kani::stub(std::time::Instant::now, clock::mock_now)]
+#[kani::stub(std::time::Instant::elapsed, clock::mock_elapsed)]
+#[kani::stub(RoutingTable::add, stub_table_add)]
+fn c12_reset_id_rebuilds_the_table_through_add() {
+    let mut t = table_ab();
+    let nb: u8 = kani::any();
+    let new_id = idb(nb, 3, 0);
+    t.reset_id(new_id);
+    assert!(t.id() == &new_id, "re-keying sets the new id");
+    assert!(unsafe { TADD_CALLS } == 2 && unsafe { TADD_BUCKETS_EMPTY_AT_FIRST } && unsafe { TADD_TABLE_ID0 } == nb,
+        "C12: re-keying empties the table and re-admits every old node through add() under the new id (so each is re-bucketed by its new distance, and a node carrying the new id is refused)");
+    let ids = unsafe { TADD_IDS };
+    assert!((ids[0] == 0x80 && ids[1] == 0x40) || (ids[0] == 0x40 && ids[1] == 0x80), "every old node is re-admitted exactly once");
+    core::mem::forget(t);
+}
+
+/// size(), is_empty() and the iterator agree on every table over {A, B, C, D} (two per bucket)
+#[kani::proof]
+#[kani::unwind(163)]
+#[kani::stub(std::time::Instant::now, clock::mock_now)]
+#[kani::stub(std::time::Instant::elapsed, clock::mock_elapsed)]
+fn c12_size_iteration_and_is_empty_agree() {
+    let mut t = RoutingTable::new(idb(0, 0, 0));
+    let mut want = 0usize;
+    if kani::any() { place(&mut t, node_aged(idb(0x80, 1, 0), addr(2, 1), 1_000)); want += 1; }
+    if kani::any() { place(&mut t, node_aged(idb(0x80, 0, 1), addr(3, 1), 1_000)); want += 1; }
+    if kani::any() { place(&mut t, node_aged(idb(0x01, 1, 0), addr(4, 1), 1_000)); want += 1; }
+    if kani::any() { place(&mut t, node_aged(idb(0x01, 0, 1), addr(5, 1), 1_000)); want += 1; }
+    // an empty bucket left behind by removals must not confuse is_empty()/iteration
+    if kani::any() { t.buckets.entry(7).or_default(); }
+    assert!(t.size() == want, "C12: size counts every entry");
+    assert!(t.is_empty() == (want == 0), "C12: is_empty <=> size == 0");
+    let mut it = 0usize;
+    let mut seen80 = 0usize;
+    for n in t.nodes() {
+        it += 1;
+        if n.id().as_bytes()[0] == 0x80 { seen80 += 1; }
+    }
+    assert!(it == want, "C12: iteration yields exactly size() nodes");
+    kani::cover!(want == 4 && seen80 == 2);
+    kani::cover!(want == 0);
+    core::mem::forget(t);
+}
+
+/// C14 kernel: re-adding a known node from the same IP refreshes its last_seen (real KBucket::add)
 #[kani::proof]
 #[kani::unwind(23)]
 #[kani::stub(std::time::Instant::now, clock::mock_now)]
@@ -254,68 +324,25 @@ fn c12_table_add_preserves_the_invariant() {
 #[kani::stub(Id::is_valid_for_ip, stub_is_valid_for_ip)]
 fn c14_readding_a_known_node_refreshes_last_seen() {
     let mut t = RoutingTable::new(idb(0, 0, 0));
-    let s = sym();
     let age: u64 = kani::any();
     kani::assume(age <= 2_000_000);
-    let old = node_of(&s, age);
-    let d = t.id.distance(old.id());
-    t.buckets.entry(d).or_default().nodes.push(old);
-    // possibly another, unrelated node
-    if kani::any() {
-        let o = node_aged(idb(0x20, 9, 0), addr(9, 9), 1_000);
-        let d = t.id.distance(o.id());
-        t.buckets.entry(d).or_default().nodes.push(o);
-    }
-    let again = Node::new(idb(s.b0, s.b1, s.b19), addr(s.ip3, kani::any()));
-    let added = t.add(again.clone());
+    let ip3: u8 = kani::any(); // parity decides whether the node counts as BEP42-secure
+    place(&mut t, node_aged(idb(0x80, 1, 0), addr(ip3, 7000), age));
+    place(&mut t, node_aged(idb(0x40, 1, 0), addr(ip3 ^ 0x10, 7000), 1_000));
+    let again = Node::new(idb(0x80, 1, 0), addr(ip3, kani::any()));
+    let want_port = again.address().port();
+    let added = t.add(again);
     assert!(added, "C14: a node that answers again (same id, same IP) is accepted again");
-    let mut seen_age = u64::MAX;
-    for n in t.nodes() {
-        if n.id() == again.id() {
-            seen_age = last_seen_age_ms(&n);
-            assert!(n.address() == again.address(), "the port is updated as well");
+    match t.buckets.get(&160) {
+        Some(b) => {
+            assert!(b.nodes.len() == 1);
+            assert!(last_seen_age_ms(&b.nodes[0]) == 0, "C14: its last_seen is refreshed, so it is not stale for another 15 minutes");
+            assert!(b.nodes[0].address().port() == want_port, "and its port is updated");
         }
+        None => assert!(false),
     }
-    assert!(seen_age == 0, "C14: its last_seen is refreshed, so it is not stale for another 15 minutes");
-    assert!(wf(&t));
-    kani::cover!(age > STALE_MS);
-    core::mem::forget(t);
-}
-
-#[kani::proof]
-#[kani::unwind(23)]
-#[kani::stub(std::time::Instant::now, clock::mock_now)]
-#[kani::stub(std::time::Instant::elapsed, clock::mock_elapsed)]
-#[kani::stub(Id::is_valid_for_ip, stub_is_valid_for_ip)]
-fn c12_table_remove_preserves_the_invariant() {
-    let (mut t, n) = small_table();
-    let s = sym();
-    let id = idb(s.b0, s.b1, s.b19);
-    let was_there = contains(&t, &id);
-    t.remove(&id);
-    assert!(wf(&t), "C12: remove preserves the routing-table invariant");
-    assert!(!contains(&t, &id), "remove removes");
-    assert!(t.size() == n - if was_there { 1 } else { 0 }, "and removes nothing else");
-    kani::cover!(was_there && n == 2);
-    kani::cover!(!was_there && n == 2);
-    core::mem::forget(t);
-}
-
-#[kani::proof]
-#[kani::unwind(23)]
-#[kani::stub(std::time::Instant::now, clock::mock_now)]
-#[kani::stub(std::time::Instant::elapsed, clock::mock_elapsed)]
-#[kani::stub(Id::is_valid_for_ip, stub_is_valid_for_ip)]
-fn c12_table_reset_id_preserves_the_invariant() {
-    let (mut t, n) = small_table();
-    let s = sym();
-    let new_id = idb(s.b0, s.b1, s.b19);
-    let had_new_id = contains(&t, &new_id);
-    t.reset_id(new_id);
-    assert!(t.id() == &new_id);
-    assert!(wf(&t), "C12: re-keying preserves the invariant (every entry re-bucketed by its distance to the new id, the new own id dropped)");
-    assert!(t.size() <= n - if had_new_id { 1 } else { 0 }, "re-keying adds nothing and drops a node that carries the new own id");
-    kani::cover!(had_new_id);
-    kani::cover!(!had_new_id && n == 2);
+    assert!(t.size() == 2);
+    kani::cover!(age > STALE_MS && ip3 & 1 == 1);
+    kani::cover!(age > STALE_MS && ip3 & 1 == 0);
     core::mem::forget(t);
 }
